@@ -304,18 +304,16 @@ Proof. unfold ts_eq. intros (?&?&?&?&?&?) (?&?&?&?&?&?). repeat split; etransiti
 (* abs_transform = product of the ancestors' transforms, for every node, unless a use / nested svg element
    carries its own transform attribute *)
 Theorem abs_transform_product_guarded : forall n pabs,
-  has_use_ts n = false -> has_simple_leaf n = false -> product_ok pabs (thread pabs n) = true.
+  has_use_ts n = false -> product_ok pabs (thread pabs n) = true.
 Proof.
-  fix IH 1. intros [| |k nts pts ch] pabs H Hs.
+  fix IH 1. intros [|k nts pts ch] pabs H.
   - cbn. apply ts_eqb_refl.
-  - discriminate.
-  - cbn [has_use_ts] in H. cbn [has_simple_leaf] in Hs. apply orb_false_iff in H. destruct H as [Hk Hch].
+  - cbn [has_use_ts] in H. apply orb_false_iff in H. destruct H as [Hk Hch].
     cbn [thread].
     assert (Hkids : forall a, forallb (product_ok a) (map (thread a) ch) = true).
     { intros a. clear Hk. induction ch as [|c ch IHch]; [reflexivity|].
-      cbn [existsb] in Hch, Hs. apply orb_false_iff in Hch. destruct Hch as [Hc Hrest].
-      apply orb_false_iff in Hs. destruct Hs as [Hsc Hsrest].
-      cbn [map forallb]. rewrite (IH c a Hc Hsc), (IHch Hrest Hsrest). reflexivity. }
+      cbn [existsb] in Hch. apply orb_false_iff in Hch. destruct Hch as [Hc Hrest].
+      cbn [map forallb]. rewrite (IH c a Hc), (IHch Hrest). reflexivity. }
     destruct k; cbn [product_ok]; rewrite Hkids, andb_true_r.
     + apply ts_eqb_refl.
     + apply negb_false_iff in Hk. apply ts_eqb_spec in Hk. apply ts_eqb_of_eq. apply ts_concat_id_r. exact Hk.
@@ -519,11 +517,6 @@ Proof.
   destruct (lo1_proper _ _ _ _ (by0 r) (by0 r) (by1 r) (by1 r) Esy Ety (Qeq_refl _) (Qeq_refl _)) as [QY0 QY1].
   repeat split; assumption.
 Qed.
-
-(* structure/svg/background-color-with-viewbox.svg: the background path under the root viewBox transform *)
-Theorem background_path_abs_refuted :
-  exists n, has_simple_leaf n = true /\ has_use_ts n = false /\ product_ok ts_identity (thread ts_identity n) = false.
-Proof. exists (TGroup GK_Plain (from_translate 100 100) ts_identity [TLeafSimple; TLeaf]). repeat split; vm_compute; reflexivity. Qed.
 
 (* stroke box under a skewed / rotated transform *)
 Lemma min4_glb m a b c d : m <= a -> m <= b -> m <= c -> m <= d -> m <= min4 a b c d.
